@@ -106,8 +106,8 @@ pub open spec fn cleanup_log(armed: bool, event: Option<SupervisionEvent>, sup: 
     }
 }
 /// C04/C05/C06/C08, independent of the order of independent steps: an armed guard publishes Stopping once and Stopped once and
-/// last, signals the children once, notifies the supervisor `n` times (and never after unlinking from it), unlinks iff it saw
-/// a supervisor, and does nothing else; a disarmed guard does nothing
+/// last, signals the children once, notifies the supervisor `n` times (and never after unlinking from it), looks up its current
+/// supervisor exactly once and unlinks iff there is one, and does nothing else; a disarmed guard does nothing
 pub open spec fn cleanup_shape(a: Seq<Effect>, b: Seq<Effect>, armed: bool, n: nat) -> bool {
     if !armed { b == a } else {
         &&& a.len() <= b.len() && (forall|i: int| 0 <= i < a.len() ==> #[trigger] b[i] == a[i])
@@ -115,6 +115,7 @@ pub open spec fn cleanup_shape(a: Seq<Effect>, b: Seq<Effect>, armed: bool, n: n
         &&& fcount(b, a.len() as int, Fine::SetStopping) == 1 && fcount(b, a.len() as int, Fine::SetStopped) == 1 && fcount(b, a.len() as int, Fine::SetOther) == 0
         &&& fcount(b, a.len() as int, Fine::Terminate) == 1
         &&& fcount(b, a.len() as int, Fine::Notify) == n
+        &&& fcount(b, a.len() as int, Fine::SupSome) + fcount(b, a.len() as int, Fine::SupNone) == 1
         &&& fcount(b, a.len() as int, Fine::Unlink) == fcount(b, a.len() as int, Fine::SupSome)
         &&& forall|i: int, j: int| a.len() <= i < j < b.len() && #[trigger] b[i] is Unlink ==> !(#[trigger] b[j] is Notify)
     }
